@@ -31,6 +31,15 @@ def register_custom():
                     if isinstance(r, BaseException):
                         raise r
                     return r
+        elif ident == 41:
+            # four arguments, but the fourth is not NAMED current_rule: _check goes by arity
+            class C(_checks.Check):
+                def __call__(self, target, creds, enforcer, rule_name=None):
+                    _trace.append(('custom', ident, rule_name))
+                    r = _custom_results.get(kind, True)
+                    if isinstance(r, BaseException):
+                        raise r
+                    return r
         else:
             class C(_checks.Check):
                 def __call__(self, target, creds, enforcer, current_rule=None):
@@ -227,7 +236,8 @@ def run_impl(case, deep=None):
         conf.set_override(k, v, group='oslo_policy')
     e = policy.Enforcer(conf, use_conf=False, **kw)
     for name, types in case.get('registered', {}).items():
-        e.register_default(policy.RuleDefault(name, '!', scope_types=types or None))
+        e.register_default(policy.RuleDefault(name, case.get('registered_check', {}).get(name, '!'),
+                                              scope_types=types or None))
     carrier = case.get('carrier', 'rules_same')
     if carrier == 'dict':
         e.set_rules({k: _parser.parse_rule(v) for k, v in case['rules'].items()}, use_conf=False)
